@@ -18,7 +18,7 @@ CONSTANTS
   MaxRounds = 2
   TimeChoices = "all"
   TupMode = "one"
-  SelMode = "rot"
+  SelMode = "one"
   Backends = {"match"}
   LastStage = "mps"
   AllowFindings = FALSE
